@@ -92,19 +92,21 @@ def rule_match(ctx):
     cid, req, fut = names
     pop = [n for n in c.calls(attr="popleft") if unparse(n.ast.func.value) == "self._requests"]
     ctx.ob(R, fi, fi.node, len(pop) == 1, f"{len(pop)} pops per frame", text="one-pop")
-    sasl = [t for t in c.nodes if t.kind == "test" and is_none_test(t.ast) is not None and unparse(is_none_test(t.ast)) == cid]
-    sasl = ctx.one(sasl, "`correlation_id is None` (SASL) test")
+    from ..rulekit import none_tests
+    st_ = none_tests(c, cid)
+    ctx.anchor(len(st_) == 1, "`correlation_id is None` (SASL) test")
+    sasl, SASL_T, SASL_F = st_[0]   # labels meaning `is None` (SASL packet) / `is not None` (a Kafka reply)
     ctests = [t for t in c.nodes if t.kind == "test" and "response_header.correlation_id" in unparse(t.ast)]
     mism = [t for t in ctests if isinstance(t.ast, ast.Compare) and isinstance(t.ast.ops[0], (ast.NotEq, ast.Eq)) and {unparse(t.ast.left), unparse(t.ast.comparators[0])} == {"response_header.correlation_id", cid}]
     ctx.ob(R, fi, fi.node, len(mism) == 1, "no comparison of the reply's correlation id with the head request's", text="has-comparison")
-    nonsasl = [m for m, l in sasl.succ if l == "F"]
+    nonsasl = [m for m, l in sasl.succ if l == SASL_F]
     if pop:
         ok = pop[0] not in c.reachable(nonsasl, avoid=set(ctests), include_src=True)
         ctx.ob(R, fi, pop[0], ok, "the head entry can be completed/popped without the correlation id of the frame being compared (e.g. when its waiter "
                                   "was cancelled or timed out): a desynchronised stream goes unnoticed", text="pop-after-comparison")
     sr = [n for n in c.calls(attr="set_result") if dotted(n.ast.func.value) == fut]
     for s in sr:
-        if c.dominated_by_branch(sasl, "T", s):
+        if c.dominated_by_branch(sasl, SASL_T, s):
             continue
         ok = s not in c.reachable(nonsasl, avoid=set(ctests), include_src=True)
         ctx.ob(R, fi, s, ok, "a waiter can receive a reply whose correlation id was not compared", text="result-after-comparison")
@@ -140,7 +142,7 @@ def rule_match(ctx):
     ok = len(rt) == 1 and unparse(def_value(rt[0])) == f"{req}.RESPONSE_TYPE" and any(dotted(n.ast.func.value) == "resp_type" for n in dc)
     ctx.ob(R, fi, fi.node, ok, "reply body is not decoded with the head request's RESPONSE_TYPE", text="response-type")
     for s in sr:
-        if not c.dominated_by_branch(sasl, "T", s):
+        if not c.dominated_by_branch(sasl, SASL_T, s):
             a = arg_of(s.ast, 0)
             ds = local_defs(c, unparse(a)) if isinstance(a, ast.Name) else []
             ctx.ob(R, fi, s, len(ds) == 1 and isinstance(def_value(ds[0]), ast.Call) and call_attr(def_value(ds[0])) == "decode", "waiter receives something other than the decoded reply", text="result-is-decoded")
@@ -213,8 +215,24 @@ def rule_errors_close(ctx):
         ok = len(hs) == 1 and unparse(hs[0].ast.type) == "Exception" and cl[0] in ce.reachable([hs[0]], exc=False)
         if ok:
             # close is skipped only when the connection object is gone
-            tests = [t for t in ce.nodes if t.kind == "test" and t in ce.reachable([hs[0]], exc=False) and ce.exit in ce.reachable([m for m, l in t.succ], avoid=set(cl), exc=False, include_src=True)]
-            ok = all(unparse(t.ast) in ("self is not None", "isinstance(exc, OSError | EOFError | ConnectionError)") for t in tests)
+            from ..rulekit import none_tests
+            gone = {t: ln for t, ln, _lnn in none_tests(ce, "self")}   # label meaning `self is None` (connection object collected)
+            # from the handler, the exit is reachable without close() only through a `self is None` edge
+            seen, stack = set(), [hs[0]]
+            leak = False
+            while stack:
+                n = stack.pop()
+                if n in seen or n in cl:
+                    continue
+                seen.add(n)
+                if n is ce.exit:
+                    leak = True
+                    break
+                for m, l in n.succ:
+                    if l == "exc" or (n in gone and l == gone[n]):
+                        continue
+                    stack.append(m)
+            ok = not leak and bool(gone)
             ok = ok and unparse(arg_of(cl[0].ast, kw="exc") or ast.Constant(None)) == hs[0].ast.name
     ctx.ob(R, fe, fe.node, ok, "a failed reader task does not close the connection (with the cause)", text="callback-closes")
     fr = ctx.fn(f"{CONN}._read")
